@@ -345,6 +345,22 @@ fn exec(w: &mut Worker, o: &Value) {
                 push(e);
             }
         }
+        "is_unique_s" => {
+            // a reader of the handle's data word (and, once promoted, of the count in the
+            // control block) racing with a promotion or a release elsewhere
+            if let Some(s) = w.shared.as_ref() {
+                let u = s.is_unique();
+                la::set_window(0);
+                std::hint::black_box(u);
+            }
+        }
+        "is_unique" => {
+            if let Some(Slot { h: Some(H::B(bb)), .. }) = w.own.get(i) {
+                let u = bb.is_unique();
+                la::set_window(0);
+                std::hint::black_box(u);
+            }
+        }
         "clone" => {
             if let Some(Slot { h: Some(H::B(bb)), exp, addr, .. }) = w.own.get(i) {
                 let c = bb.clone();
